@@ -7,6 +7,7 @@ from __future__ import annotations
 import ast
 
 from .finite import Ev, Undecided, _Ret
+from . import pat
 
 U = ast.unparse
 
@@ -250,6 +251,14 @@ class Runner:
                 m = self.ctx.model.methods.get(base._name[6:], {}).get(node.attr)
                 if m is not None and m.kind in ("static", "class"):
                     return RepoFnValue(self, base, m)
+                # a class-level constant (`Intersection.tol_norm = 1e-9`), read through the class or a base class
+                M = self.ctx.model
+                cname = base._name[6:]
+                for k in ([cname] + M.mro(cname)[1:] if cname in M.classes else []):
+                    if node.attr in M.class_consts.get(k, {}):
+                        v = pat.const_value(M.class_consts[k][node.attr])
+                        if v is not None:
+                            return v
             plain = node.attr
             if not base._name.startswith("class:") and any(
                     plain in ms and ms[plain].kind == "method" for ms in self.ctx.model.methods.values()):
